@@ -307,8 +307,8 @@ def gen_consts(repo):
 def generators():
     """Gen file name -> function(repo) -> text; each is run on its own so that a construct the translator does not accept in one source
     file fails only the theorems that depend on that Gen file"""
-    from harness.translator import mosek_tab, funcs, gf2_tr, forms_tr, mforms_tr, symcorr_tr, alloc_tr, sigeq_tr, varmap_tr, prodcone_tr, rows_tr
-    return {'GenRows.v': rows_tr.gen_rows, 'GenProdCone.v': prodcone_tr.gen_prodcone, 'GenVarMap.v': varmap_tr.gen_varmap, 'GenSigEq.v': sigeq_tr.gen_sigeq, 'GenAlloc.v': alloc_tr.gen_alloc, 'GenSymCorr.v': symcorr_tr.gen_symcorr, 'GenForms.v': forms_tr.gen_forms, 'GenMosekForms.v': mforms_tr.gen_mforms, 'GenGf2.v': gf2_tr.gen_gf2, 'GenSolrec.v': funcs.gen_solrec, 'GenConGen.v': funcs.gen_congen, 'GenMosek.v': mosek_tab.gen_mosek,
+    from harness.translator import mosek_tab, funcs, gf2_tr, forms_tr, mforms_tr, symcorr_tr, alloc_tr, sigeq_tr, varmap_tr, prodcone_tr, rows_tr, epi_tr
+    return {'GenEpi.v': epi_tr.gen_epi, 'GenRows.v': rows_tr.gen_rows, 'GenProdCone.v': prodcone_tr.gen_prodcone, 'GenVarMap.v': varmap_tr.gen_varmap, 'GenSigEq.v': sigeq_tr.gen_sigeq, 'GenAlloc.v': alloc_tr.gen_alloc, 'GenSymCorr.v': symcorr_tr.gen_symcorr, 'GenForms.v': forms_tr.gen_forms, 'GenMosekForms.v': mforms_tr.gen_mforms, 'GenGf2.v': gf2_tr.gen_gf2, 'GenSolrec.v': funcs.gen_solrec, 'GenConGen.v': funcs.gen_congen, 'GenMosek.v': mosek_tab.gen_mosek,
             'GenEcosParse.v': gen_ecos_parse, 'GenProblemSolve.v': gen_problem_solve, 'GenSettings.v': gen_settings, 'GenConsts.v': gen_consts}
 
 
